@@ -20,6 +20,9 @@ type Driver struct {
 	O   *Oracle
 	P   *Plan
 	Res *Result
+
+	flows   map[string]*pendingFlow
+	lastLoc map[string]string
 }
 
 // RunPlan executes a plan. It must be called inside a synctest bubble, with the
@@ -68,6 +71,17 @@ func RunPlan(p *Plan, dir string, keepTrace bool) (res *Result) {
 	}
 	d := &Driver{W: w, P: p, Res: res}
 	d.O = NewOracle(w, res)
+	d.lastLoc = map[string]string{}
+	w.OnExchange = func(e *Exchange) {
+		if loc := e.RespHdr.Get("Location"); loc != "" {
+			if base, err := url.Parse(w.Scheme() + "://" + e.Host + e.Target); err == nil {
+				if ref, err := url.Parse(loc); err == nil {
+					d.lastLoc[e.Actor] = base.ResolveReference(ref).String()
+				}
+			}
+		}
+		d.O.OnExchange(e)
+	}
 	if err := w.BootAuth(); err != nil {
 		res.BootFailed = true
 		w.Log.Note("auth boot failed: %v", err)
@@ -82,6 +96,7 @@ func RunPlan(p *Plan, dir string, keepTrace bool) (res *Result) {
 	for i := range p.Steps {
 		st := &p.Steps[i]
 		w.SetStep(i)
+		d.O.tag, d.O.hostile, d.O.tagHop = st.Tag, st.Hostile, 0
 		if st.Dt > 0 {
 			time.Sleep(st.Dt)
 		}
@@ -109,8 +124,14 @@ func (d *Driver) reqOf(st *Step) Req {
 	if target == "" {
 		target = "/"
 	}
-	r := Req{Method: st.Method, URL: d.scheme(st) + "://" + host + "/", RawTarget: target, HostHdr: st.HostHdr, Headers: st.Headers, Body: []byte(st.Body),
-		NoJar: st.NoJar, CookieHdr: st.CookieHdr, Chunked: st.Chunked, NoStore: st.NoStore}
+	b := d.W.Browser(st.B)
+	target = d.subst(b, target)
+	hdrs := make([][2]string, len(st.Headers))
+	for i, h := range st.Headers {
+		hdrs[i] = [2]string{h[0], d.subst(b, h[1])}
+	}
+	r := Req{Method: st.Method, URL: d.scheme(st) + "://" + host + "/", RawTarget: target, HostHdr: st.HostHdr, Headers: hdrs, Body: []byte(d.subst(b, st.Body)),
+		NoJar: st.NoJar, CookieHdr: d.subst(b, st.CookieHdr), Chunked: st.Chunked, NoStore: st.NoStore}
 	if u, err := url.Parse(d.scheme(st) + "://" + host + target); err == nil && strings.HasPrefix(target, "/") {
 		r.URL = u.String()
 		r.RawTarget = target
@@ -273,7 +294,11 @@ func Corrupt(v, sub string, arg int, str string) string {
 	case "extend":
 		return v + str
 	case "reencode":
-		switch arg % 4 {
+		n := 3
+		if str == "query" { // a newline can travel percent-encoded in a query parameter, never in a cookie
+			n = 4
+		}
+		switch arg % n {
 		case 0:
 			return v + strings.Repeat("=", (4-len(v)%4)%4+boolInt(len(v)%4 == 0))
 		case 1:
@@ -317,6 +342,9 @@ func (d *Driver) jar(b *Browser, st *Step) {
 	name := st.Name
 	if name == "" {
 		name = ProxyCookieName
+	}
+	if name == "{{authcookie}}" {
+		name = d.W.AuthCookieName()
 	}
 	c := b.Cookie(name)
 	switch st.Sub {
@@ -520,6 +548,9 @@ func (d *Driver) mutator(st *Step) func([]byte) []byte {
 		}
 		d.W.Log.Note("corrupt: %s byte %d %q -> %q", comp, i-lo, c, out[i])
 		d.Res.fault("net.corrupt." + strings.SplitN(comp, ":", 2)[0])
+		d.W.Up.mu.Lock()
+		d.W.Up.PendingTamper = comp
+		d.W.Up.mu.Unlock()
 		return out
 	}
 }
